@@ -162,7 +162,7 @@ func (w *Worker) intrinsic(fn *ssa.Function, args []Value) (Value, bool) {
 		return sl, true
 	case "verifSetLen":
 		// verifSetLen(s []T, n int) []T : same backing, length n (0<=n<=cap assumed)
-		s := args[0].(SliceV)
+		s := w.concGeom(args[0].(SliceV))
 		n := args[1].(*Term)
 		w.assume(tt.And(tt.BVSle(tt.BV(64, 0), n), tt.BVSle(n, tt.BV(64, uint64(s.Cap)))))
 		if s.Nil {
@@ -222,6 +222,28 @@ func (w *Worker) intrinsic(fn *ssa.Function, args []Value) (Value, bool) {
 	case "verifNote":
 		w.stats.Stubs["harness note: "+w.concStr(args[0], "note")]++
 		return nil, true
+	case "verifStubFunc":
+		if w.stubs == nil {
+			w.stubs = map[string]Value{}
+		}
+		n := w.concStr(args[0], "stub target")
+		iv := args[1].(IfaceV)
+		w.stubs[n] = iv.V
+		w.stats.Stubs["harness stub replaces "+n]++
+		return nil, true
+	case "verifTask":
+		return tt.BV(64, uint64(w.curTask)), true
+	case "verifInEngine":
+		return tt.Bool(true), true
+	case "verifSymSlices":
+		w.cfg.SymSlices = args[0].(*Term).B
+		return nil, true
+	case "verifSliceOff":
+		s := args[0].(SliceV)
+		if s.SOff != nil {
+			return s.SOff, true
+		}
+		return tt.BV(64, uint64(s.Off)), true
 	case "verifIsSym":
 		t, ok := args[0].(*Term)
 		return tt.Bool(ok && !t.IsConst()), true
